@@ -187,6 +187,24 @@ theorem clean_deleted (queue : AMap Key QVal) (ct : AMap Key Entry) (x : Key) (e
       obtain ⟨kq', hm, ct1, hs, hg, hr⟩ := ih (cleanEntry ct kq.1 kq.2) hstep hd
       exact ⟨kq', List.mem_cons_of_mem _ hm, ct1, hs.trans (cleanEntry_sub _ _ _), hg, hr⟩
 
+/-- variant of `clean_deleted` exposing the deleting step itself. -/
+theorem clean_deleted' (queue : AMap Key QVal) (ct : AMap Key Entry) (x : Key) (e : Entry)
+    (hx : ct.get x = some e) (hd : (clean ct queue).get x = none) :
+    ∃ kq ∈ queue, ∃ ct1, Sub ct1 ct ∧ ct1.get x = some e ∧ (cleanEntry ct1 kq.1 kq.2).get x = none := by
+  induction queue generalizing ct with
+  | nil => simp [clean] at hd; rw [hx] at hd; cases hd
+  | cons kq rest ih =>
+    simp only [clean, List.foldl_cons] at hd
+    cases hstep : (cleanEntry ct kq.1 kq.2).get x with
+    | none => exact ⟨kq, List.mem_cons_self .., ct, Sub.refl _, hx, hstep⟩
+    | some e' =>
+      have he' : e' = e := by
+        have := cleanEntry_sub ct kq.1 kq.2 x e' hstep
+        rw [hx] at this; cases this; rfl
+      subst he'
+      obtain ⟨kq', hm, ct1, hs, hg, hr⟩ := ih (cleanEntry ct kq.1 kq.2) hstep hd
+      exact ⟨kq', List.mem_cons_of_mem _ hm, ct1, hs.trans (cleanEntry_sub _ _ _), hg, hr⟩
+
 /-! ## What the scanner puts on the queue -/
 
 /-- the judgement recorded for a plain (no reverse key) queue item about the entry `e0` under `k`. -/
